@@ -63,6 +63,18 @@ def run(tier, seed):
         res = f.freq_response(Stream([Omega("E"), Omega("G")]))
         return isinstance(res, Stream) and all(same(u, (1 + 2 * Sym.var(n)) / (1 + F(1, 2) * Sym.var(n))) for u, n in zip(res, ("E", "G"))), "freq_response over a Stream"
     R.guard("freq_response-per-element-over-containers", {"kind": "Stream"}, strm)
+    for cls, comb_, nm in ((CascadeFilter, lambda a, b: a * b, "cascade"), (ParallelFilter, lambda a, b: a + b, "parallel")):
+        for kind, mk in (("Stream", lambda: Stream([Omega("E"), Omega("G"), Omega("K")])), ("generator", lambda: (w for w in [Omega("E"), Omega("G"), Omega("K")])),
+                         ("list", lambda: [Omega("E"), Omega("G"), Omega("K")])):
+            def multi():
+                g1, g2 = ZFilter([1, 2], [1, F(1, 2)]), ZFilter([3], [1, 0, F(1, 4)])
+                res = list(cls(g1, g2).freq_response(mk()))
+                exp = []
+                for n in ("E", "G", "K"):
+                    e_ = Sym.var(n)
+                    exp.append(comb_((1 + 2 * e_) / (1 + F(1, 2) * e_), 3 / (1 + F(1, 4) * e_ ** 2)))
+                return len(res) == 3 and all(same(u, v) for u, v in zip(res, exp)), "%s response over a %s of frequencies: %d values" % (nm, kind, len(res))
+            R.guard("%s-response-per-element-over-one-shot-containers" % nm, {"kind": kind}, multi)
     # nan where the denominator vanishes (numeric)
     lazy_filters.complex_exp = cmath.exp
     g = ZFilter([1], [1, -1])
